@@ -106,7 +106,11 @@ impl MultiPeerBackend for PubSocketBackend {
                 },
             )
             .await;
-        let backend = self;
+        // The reader task must not keep the backend alive: the backend owns the task's stop
+        // channel, so a strong reference here is a cycle that only `shutdown()` breaks, and a
+        // peer registered after `shutdown()` (handshake finishing while the socket is dropped)
+        // would never be released.
+        let backend = Arc::downgrade(&self);
         let peer_id = peer_id.clone();
         async_rt::task::spawn(async move {
             let mut stop_receiver = stop_receiver.fuse();
@@ -116,6 +120,10 @@ impl MultiPeerBackend for PubSocketBackend {
                          break;
                      },
                      message = recv_queue.next().fuse() => {
+                        let backend = match backend.upgrade() {
+                            Some(backend) => backend,
+                            None => break,
+                        };
                         match message {
                             Some(Ok(m)) => backend.message_received(&peer_id, m),
                             Some(Err(e)) => {
